@@ -10,11 +10,21 @@
 (* A definition may also be *derived* (Derive): the fields defined so far become a base class of their  *)
 (* own and the one or two fields added afterwards belong to a subclass of it.  Its meaning is that of   *)
 (* the concatenated field list - whichever of the two classes was materialised or used first.           *)
+(*                                                                                                      *)
+(* A class body holds more than wire fields (AddConst): class-level constants - written as a bare       *)
+(* assignment `MAX = 8` or, in the dataclass form, annotated `MAX: ClassVar[int] = 8` -, helper methods *)
+(* and the message id (bare / ClassVar / given in the class header, `DataClassPayload[17]` resp. a       *)
+(* `VariablePayloadWID` with msg_id).  By the rules of the language none of these is a field: they may   *)
+(* stand before, between or after the fields, in the base class or in the subclass (which then overrides *)
+(* the base's value), and the definition still means the same field list, bytes and decoding; the       *)
+(* members keep the value they were given, on the class, on a constructed and on a decoded instance.    *)
 EXTENDS Wire
 
 CONSTANTS MaxFields,      \* longest definition explored
           DerivedMax,     \* longest *derived* definition explored (base fields ++ own fields)
-          Kinds           \* field kinds (registered format names) used by the definitions
+          Kinds,          \* field kinds (registered format names) used by the definitions
+          MaxConsts,      \* most non-field members (constants, methods, message id) written into the class bodies
+          CKinds          \* kinds of non-field members used by the definitions
 
 NestedCls == "messaging.anonymization.payload.IntroductionInfo"     \* shipped class used for nested / listed fields
 Item(k)   == [fmt |-> k, cls |-> IF k \in {"payload", "payload-list"} THEN NestedCls ELSE ""]
@@ -63,6 +73,20 @@ ArgVal(k, i, j) == KDom(k)[((i + j) % 3) + 1]
 (* empty list                                                                                           *)
 DefaultVal(k) == KDom(k)[4]
 
+(* non-field members of a class body.  ck: what it is; sty: how it is written ("bare" assignment / def, *)
+(* "classvar" = annotated with typing.ClassVar in the dataclass form, "subscript" = message id in the    *)
+(* class header); the value depends on the class that declares it, so that an override is visible       *)
+ConstKinds == {"int", "text", "tuple", "msgid", "method"}
+ConstStyles(ck) == CASE ck = "msgid" -> {"bare", "classvar", "subscript"}
+                     [] ck = "method" -> {"bare"}
+                     [] OTHER -> {"bare", "classvar"}
+CVal(ck, sub) ==
+  CASE ck = "int"    -> IF sub THEN 9 ELSE 8
+    [] ck = "text"   -> IF sub THEN <<110, 47, 97>> ELSE <<233, 34, 39>>
+    [] ck = "tuple"  -> IF sub THEN <<1, 2>> ELSE <<7>>
+    [] ck = "msgid"  -> IF sub THEN 18 ELSE 17
+    [] ck = "method" -> IF sub THEN 43 ELSE 42            \* what calling the helper method returns
+
 VARIABLES def,       \* sequence of [k: kind, d: has a default, h: has custom rules, dv: the default value]
           split,     \* 0, or the number of leading fields that belong to the base class of a derived definition
           dphase,    \* "define" | "called"
@@ -70,8 +94,12 @@ VARIABLES def,       \* sequence of [k: kind, d: has a default, h: has custom ru
           args,      \* the argument given for every field (ignored for an omitted one)
           fields,    \* field values the instance must have after construction
           pbytes,    \* bytes the instance must pack to
-          pdec       \* what decoding those bytes must give
-dvars == <<def, split, dphase, style, args, fields, pbytes, pdec>>
+          pdec,      \* what decoding those bytes must give
+          consts,    \* sequence of [ck, sty, pos: number of fields written before it, sub: written in the subclass body,
+                     \*              v: the value written there]
+          cvals,     \* value every member of consts must show on the (most derived) class and on its instances
+          bcvals     \* the same for the base class of a derived definition (its own members only)
+dvars == <<def, split, dphase, style, args, fields, pbytes, pdec, consts, cvals, bcvals>>
 WireIdle == /\ kind = "none" /\ fmt = "" /\ val = <<>> /\ pad = 0 /\ bytes = <<>> /\ data = <<>> /\ dec = Err
             /\ re = <<>> /\ phase = "none"
 
@@ -86,6 +114,7 @@ DecDefFrom(df, i, d, off, acc) ==
 DecDef(df, d) == DecDefFrom(df, 1, d, 0, <<>>)
 
 DInit == /\ def = <<>> /\ split = 0 /\ dphase = "define" /\ style = "" /\ args = <<>> /\ fields = <<>> /\ pbytes = <<>> /\ pdec = Err
+         /\ consts = <<>> /\ cvals = <<>> /\ bcvals = <<>>
 
 AddField(k, d, h) ==
   /\ dphase = "define" /\ Len(def) < MaxFields
@@ -94,14 +123,30 @@ AddField(k, d, h) ==
   /\ h => (k \in Hookable /\ \A i \in 1..Len(def) : ~def[i].h)      \* at most one field with custom rules
   /\ (Len(def) > 0 /\ def[Len(def)].d) => d                        \* defaults form a suffix (Python signature rule)
   /\ def' = Append(def, [k |-> k, d |-> d, h |-> h, dv |-> IF d THEN DefaultVal(k) ELSE <<>>])
-  /\ UNCHANGED <<split, dphase, style, args, fields, pbytes, pdec>>
+  /\ UNCHANGED <<split, dphase, style, args, fields, pbytes, pdec, consts, cvals, bcvals>>
 
 (* the fields so far become a base class; what follows is defined in a class derived from it *)
 Derive ==
   /\ dphase = "define" /\ split = 0 /\ Len(def) > 0 /\ Len(def) < DerivedMax /\ Len(def) < MaxFields
   /\ def[Len(def)].k # "raw"
   /\ split' = Len(def)
-  /\ UNCHANGED <<def, dphase, style, args, fields, pbytes, pdec>>
+  /\ UNCHANGED <<def, dphase, style, args, fields, pbytes, pdec, consts, cvals, bcvals>>
+
+(* a member that is not a wire field is written at this point of the class body (of the subclass, once  *)
+(* the definition is derived); a name is declared once per class body; the class header comes first     *)
+AddConst(ck, sty) ==
+  /\ dphase = "define" /\ Len(consts) < MaxConsts
+  /\ sty \in ConstStyles(ck)
+  /\ sty = "subscript" => (split = 0 /\ Len(def) = 0 /\ Len(consts) = 0)
+  /\ \A i \in 1..Len(consts) : ~(consts[i].ck = ck /\ consts[i].sub = (split > 0))
+  /\ consts' = Append(consts, [ck |-> ck, sty |-> sty, pos |-> Len(def), sub |-> split > 0, v |-> CVal(ck, split > 0)])
+  /\ UNCHANGED <<def, split, dphase, style, args, fields, pbytes, pdec, cvals, bcvals>>
+
+Overridden(ck) == \E j \in 1..Len(consts) : consts[j].ck = ck /\ consts[j].sub
+BaseConsts == SelectSeq(consts, LAMBDA c : ~c.sub)
+(* pinned deviation used as a negative control: a member annotated in the class body is taken for a     *)
+(* dataclass field, i.e. the instance gets one more field (holding the member's value)                   *)
+Strays == IF "const_as_field" \in Pinned THEN SelectSeq(consts, LAMBDA c : c.sty = "classvar") ELSE <<>>
 
 Call(st) ==
   /\ dphase = "define" /\ Len(def) > 0
@@ -114,12 +159,16 @@ Call(st) ==
                   THEN (IF "default_text" \in Pinned /\ def[i].k = "varlenHutf8" THEN <<>> ELSE def[i].dv)
                   ELSE a[i]]                   \* pinned _compile_init: the text of the default is pasted into the source
          b  == EncDef(def, fs)
-     IN /\ args' = a /\ fields' = fs /\ pbytes' = b /\ pdec' = DecDef(def, b)
+     IN /\ args' = a /\ pbytes' = b /\ pdec' = DecDef(def, b)
+        /\ fields' = fs \o [i \in 1..Len(Strays) |-> Strays[i].v]
+  /\ cvals' = [i \in 1..Len(consts) |-> CVal(consts[i].ck, Overridden(consts[i].ck))]
+  /\ bcvals' = [i \in 1..Len(BaseConsts) |-> CVal(BaseConsts[i].ck, FALSE)]
   /\ style' = st /\ dphase' = "called"
-  /\ UNCHANGED <<def, split>>
+  /\ UNCHANGED <<def, split, consts>>
 
 DNext == (\/ \E k \in Kinds, d \in BOOLEAN, h \in BOOLEAN : AddField(k, d, h)
           \/ Derive
+          \/ \E ck \in CKinds, sty \in {"bare", "classvar", "subscript"} : AddConst(ck, sty)
           \/ \E st \in {"positional", "keyword", "defaulted"} : Call(st))
          /\ UNCHANGED vars
 DSpec == (DInit /\ WireIdle) /\ [][DNext]_<<dvars, vars>>
@@ -129,4 +178,20 @@ DSpec == (DInit /\ WireIdle) /\ [][DNext]_<<dvars, vars>>
 RoundTripDef == dphase = "called" => pdec.ok /\ pdec.val = fields /\ pdec.end = Len(pbytes)
 DefaultsUsed == dphase = "called" =>
                   \A i \in 1..Len(def) : fields[i] = IF style = "defaulted" /\ def[i].d THEN def[i].dv ELSE args[i]
+(* state constraint of the exhaustive configurations: definitions with members are enumerated over one   *)
+(* field kind without custom rules, with one member or a base declaration and its override in the       *)
+(* subclass (all kinds, rules and up to MaxConsts members together: simulated definitions)               *)
+MembersFocus == Len(consts) > 0 =>
+                  /\ Len(consts) = 1 \/ (Len(consts) = 2 /\ consts[1].ck = consts[2].ck)
+                  /\ \A i \in 1..Len(def) : def[i].k = "H" /\ ~def[i].h
+
+(* members that are not fields stay off the wire and keep their value: the instance has exactly the     *)
+(* defined fields, the bytes are those of the field list alone, and every member shows the value of its *)
+(* most derived declaration                                                                              *)
+ConstsOffWire == dphase = "called" =>
+                   /\ Len(fields) = Len(def) /\ pbytes = EncDef(def, fields)
+                   /\ Len(cvals) = Len(consts)
+                   /\ \A i \in 1..Len(consts) :
+                        cvals[i] = CVal(consts[i].ck, consts[i].sub \/ \E j \in 1..Len(consts) : consts[j].ck = consts[i].ck /\ consts[j].sub)
+                   /\ Len(bcvals) = Cardinality({i \in 1..Len(consts) : ~consts[i].sub})
 =============================================================================
